@@ -363,8 +363,25 @@ extern "C" int sim_lockmon_held(const char **desc) {
 extern "C" const char *sim_lockmon_error(void) { return g_lock_err; }
 
 // =============================================================== fd ledger
-extern "C" int sim_fd_count(void) { int n = 0; for (int fd = 0; fd < 1024; fd++) if (fcntl(fd, F_GETFD) != -1) n++; return n; }
-extern "C" void sim_fd_snapshot(struct sim_fdset *s) { memset(s, 0, sizeof *s); for (int fd = 0; fd < 1024; fd++) if (fcntl(fd, F_GETFD) != -1) s->open[fd >> 3] |= 1 << (fd & 7); }
+// one getdents pass over /proc/self/fd instead of 1024 fcntl() probes
+#include <dirent.h>
+static void fd_scan(struct sim_fdset *s, int *count) {
+  if (s) memset(s, 0, sizeof *s);
+  int n = 0;
+  DIR *d = opendir("/proc/self/fd");
+  if (!d) { for (int fd = 0; fd < 1024; fd++) if (fcntl(fd, F_GETFD) != -1) { n++; if (s) s->open[fd >> 3] |= 1 << (fd & 7); } if (count) *count = n; return; }
+  int self = dirfd(d);
+  while (struct dirent *e = readdir(d)) {
+    if (e->d_name[0] < '0' || e->d_name[0] > '9') continue;
+    int fd = atoi(e->d_name);
+    if (fd == self || fd < 0 || fd >= 1024) continue;
+    n++; if (s) s->open[fd >> 3] |= 1 << (fd & 7);
+  }
+  closedir(d);
+  if (count) *count = n;
+}
+extern "C" int sim_fd_count(void) { int n; fd_scan(nullptr, &n); return n; }
+extern "C" void sim_fd_snapshot(struct sim_fdset *s) { fd_scan(s, nullptr); }
 extern "C" int sim_fd_diff(const struct sim_fdset *a, const struct sim_fdset *b) {
   for (int fd = 0; fd < 1024; fd++) if ((a->open[fd >> 3] ^ b->open[fd >> 3]) & (1 << (fd & 7))) return fd; return -1; }
 
